@@ -15,6 +15,9 @@ for k, v in params.get('_settings', {}).items(): setattr(S, k, v)
 proxy.STATE.int_mode = getattr(S, 'int_mode', False)
 ENG.hash_tokens = getattr(S, 'hash_tokens', False)
 ENG.merge_abs = getattr(S, 'merge_abs', False)
+T.SNAP = getattr(S, 'snap_consts', 0)
+T.FOLD = getattr(S, 'fold_ground_apps', False)
+ENG.skip_undefined = getattr(S, 'skip_undefined', False)
 proxy.install(extra=getattr(mod, 'PROXY_EXTRA', ()))
 cp = {k: v for k, v in params.items() if not k.startswith('_')}
 def body():
@@ -30,3 +33,4 @@ for c in ENG.explore(body):
     if os.environ.get('SHOWPC'): print('PC', [T.to_str(c, 6) for c in ENG.pc][:12], 'notes', ENG.notes[:5])
     print('path', n, {k: v for k, v in c.stats.items() if k != 'nontrivial_keys'}, 'cands', [(x.label, x.detail, x.values) for x in c.candidates][:3], c.inconclusive[:3])
     if n >= int(os.environ.get('MAXP', '5')): break
+print('queries', ENG.nqueries, 'sampler hits', ENG.sampler_hits, 'paths', n)
